@@ -7,7 +7,7 @@
 use super::meta::discover_local_fingerprints;
 use super::wire::{cas_decide, read_frame, write_frame, Cas, Hash, Request, Response, VERSION};
 use fs2::FileExt;
-use std::io::{BufReader, BufWriter, Read, Write};
+use std::io::{BufReader, BufWriter, Read, Seek, SeekFrom, Write};
 use std::path::{Component, Path, PathBuf};
 
 /// Join a client-supplied relative path under `root`, rejecting absolute paths
@@ -97,14 +97,29 @@ fn handle_get<W: Write>(root: &Path, path: &str, w: &mut W) -> std::io::Result<(
     let Some(dst) = safe_join(root, path) else {
         return write_frame(w, &Response::Error("bad path".into()));
     };
-    match (std::fs::metadata(&dst), current_hash(&dst)) {
-        (Ok(m), Some(hash)) => {
-            write_frame(w, &Response::Content { len: m.len(), hash })?;
-            let mut f = std::fs::File::open(&dst)?;
-            std::io::copy(&mut f, w)?;
+    // One open: the announced length, the announced hash and the bytes sent all
+    // come from the same file object, so a commit that replaces the path while
+    // this request runs cannot make them disagree (commits rename, never write
+    // in place).
+    let opened = std::fs::File::open(&dst).and_then(|mut f| {
+        if !f.metadata()?.is_file() {
+            return Err(std::io::Error::new(
+                std::io::ErrorKind::InvalidInput,
+                "not a regular file",
+            ));
+        }
+        let mut hasher = blake3::Hasher::new();
+        let len = std::io::copy(&mut f, &mut hasher)?;
+        f.seek(SeekFrom::Start(0))?;
+        Ok((f, len, *hasher.finalize().as_bytes()))
+    });
+    match opened {
+        Ok((f, len, hash)) => {
+            write_frame(w, &Response::Content { len, hash })?;
+            std::io::copy(&mut f.take(len), w)?;
             w.flush()
         }
-        _ => write_frame(w, &Response::Error("not found".into())),
+        Err(_) => write_frame(w, &Response::Error("not found".into())),
     }
 }
 
